@@ -7,7 +7,7 @@
 From Coq Require Import ZArith List Bool.
 From VBase Require Import MachInt.
 From VModel Require Import Merkle.
-From VProofs Require Import MerkleBase MerkleSingle MerkleIdx MerkleBatch MerkleTotal MerkleExamples.
+From VProofs Require Import MerkleBase MerkleSingle MerkleIdx MerkleBatch MerkleTotal MerkleBind MerkleRound MerkleExamples.
 Import ListNotations.
 Open Scope Z_scope.
 
@@ -142,17 +142,77 @@ Theorem C10_get_root_Ok_guards : forall p indexes r, get_root D merge p indexes 
   zlen (normalize_indexes indexes) = zlen (bp_nodes p).
 Proof. exact (get_root_Ok_guards D merge). Qed.
 
-(* NOT PROVED (tested only, see checks/c10.py):
-   into_paths_spec     : into_paths (prove_batch t idx) idx = Ok (map (prove t) idx)
-   from_into_roundtrip : from_paths (into_paths (prove_batch t idx) idx) idx = Ok (prove_batch t idx)
-   batch_binding       : get_root p idx = Ok (root t) -> bp_depth p = depth t ->
-                         forall j, nth j (bp_leaves p) = leaf (nth j idx) of t \/ a collision of merge is computed
-   The single-path binding theorem above applies to every path returned by into_paths; the missing
-   link is that get_root = Ok r implies into_paths returns paths that verify against r and start with
-   the claimed leaves.  These three statements are exercised by the correspondence (every subset of
-   positions of trees with <= 8 / <= 16 leaves, all mutations) and by the falsifier with real hashers. *)
+(* into_paths_sound: for ANY batch proof value accepted by get_root (depth d >= 1, usize positions),
+   into_paths succeeds and returns one path per position, of length d+1, starting with the leaf the
+   proof claims for that position, and each path verifies individually (MerkleTree::verify) against
+   the root get_root computed. *)
+Theorem C10_into_paths_sound : forall (p : bproof D) idx r (d : nat),
+  (1 <= d)%nat -> bp_depth p = Z.of_nat d -> usize_list idx ->
+  get_root D merge p idx = Ok r ->
+  exists paths, into_paths D merge p idx = Ok paths /\ length paths = length idx /\
+    forall j i path, nth_error idx j = Some i -> nth_error paths j = Some path ->
+      nth_error path 0 = nth_error (bp_leaves p) j /\ length path = S d /\
+      verify D D_eqb merge r i path = Ok tt.
+Proof. exact (into_paths_sound D D_eqb D_eqb_spec d0 merge). Qed.
 
+(* batch_binding: a batch opening of the tree's depth accepted against the tree's root claims the
+   committed leaf at every queried position, or [find_batch_collision] (decompress with into_paths,
+   compare each path with the honest path) returns two different merge inputs with equal output.
+   No collision resistance assumed. *)
+Theorem C10_batch_binding : forall (t : mtree D) (d : nat) idx (p : bproof D),
+  wf_tree D d0 merge d t -> (d <= 62)%nat -> usize_list idx ->
+  get_root D merge p idx = Ok (hval D d0 t 1) -> bp_depth p = Z.of_nat d ->
+  (forall j i, nth_error idx j = Some i -> nth_error (bp_leaves p) j = nth_error (mt_leaves t) (Z.to_nat i))
+  \/ exists c, find_batch_collision D D_eqb d0 merge t p idx = Some c /\ is_collision D merge c.
+Proof. exact (batch_binding_tree D D_eqb D_eqb_spec d0 merge). Qed.
+
+(* the same for verify_batch, in the shape of Proofs/IntegrityBinding.v merkle_batch_binding_statement
+   (which lacks the guard [usize_list idx]: positions are usize values) *)
+Theorem C10_batch_binding_verify_batch : forall (t : mtree D) (d : nat) (idx : list Z) (p : bproof D),
+  wf_tree D d0 merge d t -> (d <= 62)%nat -> usize_list idx ->
+  verify_batch D D_eqb merge (hval D d0 t 1) idx p = Ok tt -> bp_depth p = Z.of_nat d ->
+  (forall j i, nth_error idx j = Some i -> nth_error (bp_leaves p) j = nth_error (mt_leaves t) (Z.to_nat i))
+  \/ exists c, is_collision D merge c.
+Proof. exact (batch_binding_verify_batch D D_eqb D_eqb_spec d0 merge). Qed.
+
+(* two batch openings of the same positions and the SAME depth accepted against the same root claim
+   the same leaves, or a collision is computed (the shape of Proofs/FriBinding.v merkle_binding; for
+   different depths the statement is false: an internal node can be presented as a leaf) *)
+Theorem C10_batch_binding_two : forall (p1 p2 : bproof D) idx r (d : nat),
+  (1 <= d)%nat -> bp_depth p1 = Z.of_nat d -> bp_depth p2 = Z.of_nat d -> usize_list idx ->
+  get_root D merge p1 idx = Ok r -> get_root D merge p2 idx = Ok r ->
+  bp_leaves p1 = bp_leaves p2 \/
+  exists c, find_batch_collision2 D D_eqb d0 merge p1 p2 idx = Some c /\ is_collision D merge c.
+Proof. exact (batch_binding_two D D_eqb D_eqb_spec d0 merge). Qed.
+
+(* into_paths_spec: for every tree (depth 1..62) and every non-empty list of <= 255 distinct in-range
+   positions in any order, into_paths (prove_batch t idx) idx is exactly the list of the individual
+   prove t i (both equal the explicit honest paths [hpath]) *)
+Theorem C10_into_paths_spec : forall (t : mtree D) (d : nat) indexes,
+  wf_tree D d0 merge d t -> (d <= 62)%nat ->
+  indexes <> [] -> zlen indexes <= 255 -> NoDup indexes -> (forall i, In i indexes -> 0 <= i < 2 ^ Z.of_nat d) ->
+  exists p, mt_prove_batch D d0 t indexes = Ok p /\
+            into_paths D merge p indexes = Ok (map (hpath D d0 t d) indexes) /\
+            mapM (mt_prove D t) indexes = Ok (map (hpath D d0 t d) indexes).
+Proof. exact (fun t d indexes WF Hd => into_paths_spec_tree D D_eqb D_eqb_spec d0 merge t d WF Hd indexes). Qed.
+
+(* from_into_roundtrip — FULL STATEMENT, NOT PROVED for all depths (tested: correspondence + falsifier):
+     forall t idx (guards of C10_batch_complete), exists p paths,
+       mt_prove_batch t idx = Ok p /\ into_paths p idx = Ok paths /\ from_paths paths idx = Ok p.
+   By C10_into_paths_spec it is equivalent to  from_paths (map (prove t) idx) idx = Ok (prove_batch t idx);
+   what is missing is the simulation of from_paths' loops (over sorted (index, path) entries) by
+   prove_batch's loops (over normalized index pairs).
+   PROVED (bounded, by exhaustive evaluation in the kernel VM): the statement for the free merge
+   (digests = binary terms over leaf symbols, merge = term constructor), trees with 2, 4, 8 distinct
+   symbolic leaves, every duplicate-free non-empty position list in every order for 2 and 4 leaves,
+   and for 8 leaves every duplicate-free list of <= 3 positions in every order plus every non-empty
+   subset ascending and descending (978 lists, [roundtrip_cases]). *)
 End C10.
+
+Theorem C10_from_into_roundtrip_partial : forall n idx, In (n, idx) roundtrip_cases ->
+  exists t p paths, free_tree n = Ok t /\ mt_prove_batch FT (FL (-1)) t idx = Ok p /\
+    into_paths FT FN p idx = Ok paths /\ from_paths FT (FL (-1)) paths idx = Ok p.
+Proof. exact from_into_roundtrip_free_le8. Qed.
 
 Print Assumptions C10_build_nodes_spec.
 Print Assumptions C10_new_ok.
@@ -174,6 +234,12 @@ Print Assumptions C10_get_root_total.
 Print Assumptions C10_verify_batch_total.
 Print Assumptions C10_into_paths_total.
 Print Assumptions C10_get_root_Ok_guards.
+Print Assumptions C10_into_paths_sound.
+Print Assumptions C10_batch_binding.
+Print Assumptions C10_batch_binding_verify_batch.
+Print Assumptions C10_batch_binding_two.
+Print Assumptions C10_into_paths_spec.
+Print Assumptions C10_from_into_roundtrip_partial.
 
 (* Non-vacuity: concrete instances satisfying the hypotheses of the theorems above (Proofs/MerkleExamples.v):
    ex_new/ex_single_hyps/ex_single_run (single_complete), ex_binding_hyps/ex_binding_deep (single_binding with
@@ -185,3 +251,6 @@ Check ex_binding_deep.
 Check ex_batch_hyps.
 Check ex_batch_run.
 Check ex_depth_64.
+Check ex_batch_binding_hyps.
+Check ex_batch_binding_two_hyps.
+Check ex_into_paths_spec.
